@@ -2,6 +2,7 @@ package rules
 
 import (
 	"fmt"
+	"go/constant"
 	"go/token"
 	"go/types"
 	"sort"
@@ -51,14 +52,95 @@ func C18(c *Ctx) {
 		return
 	}
 	c.R.Fn(fname(exec))
-	// isPermTest: cond is `strings.HasSuffix(name, "!")`, spelled out or through a helper that returns exactly that
+	// isPermTest: cond is true exactly when name ends in '!': `strings.HasSuffix(name, "!")` or a comparison of the
+	// last byte (`name[len(name)-1] == '!'`, `name[len(name)-1:] == "!"`), spelled out or through a helper that
+	// returns exactly that (a helper may answer false for the empty name before it looks at the last byte)
+	isLenOf := func(v ssa.Value, name ssa.Value) bool {
+		cl, ok := v.(*ssa.Call)
+		if !ok {
+			return false
+		}
+		bi, isB := cl.Common().Value.(*ssa.Builtin)
+		return isB && bi.Name() == "len" && len(cl.Common().Args) == 1 && cl.Common().Args[0] == name
+	}
+	isLastIdx := func(v ssa.Value, name ssa.Value) bool {
+		bo, ok := v.(*ssa.BinOp)
+		if !ok || bo.Op != token.SUB || !isLenOf(bo.X, name) {
+			return false
+		}
+		k, isK := ssau.ConstInt(bo.Y)
+		return isK && k == 1
+	}
 	suffixCall := func(v ssa.Value, name ssa.Value) bool {
+		if bo, isB := v.(*ssa.BinOp); isB && bo.Op == token.EQL {
+			x, y := bo.X, bo.Y
+			if _, isC := x.(*ssa.Const); isC {
+				x, y = y, x
+			}
+			switch e := x.(type) {
+			case *ssa.Lookup: // name[len(name)-1] == '!'
+				if k, isK := ssau.ConstInt(y); isK && k == '!' && e.X == name && !e.CommaOk && isLastIdx(e.Index, name) {
+					return true
+				}
+			case *ssa.Index: // (a string is indexed by Index or Lookup, depending on the x/tools version)
+				if k, isK := ssau.ConstInt(y); isK && k == '!' && e.X == name && isLastIdx(e.Index, name) {
+					return true
+				}
+			case *ssa.Slice: // name[len(name)-1:] == "!"
+				if s, isS := ssau.ConstString(y); isS && s == "!" && e.X == name && e.High == nil && e.Max == nil && e.Low != nil && isLastIdx(e.Low, name) {
+					return true
+				}
+			}
+			return false
+		}
 		cl, ok := v.(*ssa.Call)
 		if !ok || ssau.CalleeName(cl) != "strings.HasSuffix" || cl.Common().Args[0] != name {
 			return false
 		}
 		s, isS := ssau.ConstString(cl.Common().Args[1])
 		return isS && s == "!"
+	}
+	// emptyName: the fact says that name is the empty string
+	emptyName := func(f flow.Fact, name ssa.Value) bool {
+		bo, ok := f.Cond.(*ssa.BinOp)
+		if !ok {
+			return false
+		}
+		x, y := bo.X, bo.Y
+		op := bo.Op
+		if _, isC := x.(*ssa.Const); isC {
+			x, y = y, x
+			switch op {
+			case token.LSS:
+				op = token.GTR
+			case token.GTR:
+				op = token.LSS
+			case token.LEQ:
+				op = token.GEQ
+			case token.GEQ:
+				op = token.LEQ
+			}
+		}
+		if x == name {
+			if s, isS := ssau.ConstString(y); isS && s == "" {
+				return (op == token.EQL && f.True) || (op == token.NEQ && !f.True)
+			}
+			return false
+		}
+		if !isLenOf(x, name) {
+			return false
+		}
+		k, isK := ssau.ConstInt(y)
+		if !isK {
+			return false
+		}
+		switch {
+		case k == 0 && ((op == token.EQL && f.True) || (op == token.NEQ && !f.True) || (op == token.LEQ && f.True) || (op == token.GTR && !f.True)):
+			return true
+		case k == 1 && ((op == token.LSS && f.True) || (op == token.GEQ && !f.True)):
+			return true
+		}
+		return false
 	}
 	isPermTest := func(cond ssa.Value, name ssa.Value) bool {
 		if suffixCall(cond, name) {
@@ -84,9 +166,30 @@ func C18(c *Ctx) {
 		n := 0
 		for _, b := range h.Blocks {
 			if ret, isRet := b.Instrs[len(b.Instrs)-1].(*ssa.Return); isRet {
-				n++
-				if !suffixCall(ret.Results[0], h.Params[idx]) {
-					return false
+				for _, d := range phiEdgesWithBlocks(ret.Results[0], b) {
+					n++
+					if suffixCall(d.v, h.Params[idx]) {
+						continue
+					}
+					// a constant answer where the facts decide the test: false for the empty name or under the failed
+					// test, true under the test
+					cst, isC := d.v.(*ssa.Const)
+					if !isC || cst.Value == nil || cst.Value.Kind() != constant.Bool {
+						return false
+					}
+					want := constant.BoolVal(cst.Value)
+					decided := false
+					for _, f := range flow.FactsAt(d.b) {
+						if !want && emptyName(f, h.Params[idx]) {
+							decided = true
+						}
+						if suffixCall(f.Cond, h.Params[idx]) && f.True == want {
+							decided = true
+						}
+					}
+					if !decided {
+						return false
+					}
 				}
 			}
 		}
@@ -96,6 +199,9 @@ func C18(c *Ctx) {
 		return n > 0
 	}
 	closure := pkgClosure(exec)
+	// dd: the leaf definitions of a value through the helpers Exec is split into and through private local cells
+	// (locals kept as the fields of one local struct)
+	dd := func(v ssa.Value, scope []*ssa.Function) []ssa.Value { return deepDefsCells(v, scope) }
 	// the wrapped call: in Exec, or in the helper of Exec that runs the wrapped function
 	var K *ssa.Call
 	for _, g := range closure {
@@ -126,7 +232,7 @@ func C18(c *Ctx) {
 	}
 	// isGiven: every definition of v, through the helpers Exec is split into, is Exec's bindings parameter
 	isGiven := func(v ssa.Value) bool {
-		ds := deepDefs(v, closure)
+		ds := dd(v, closure)
 		for _, d := range ds {
 			if d != ssa.Value(bsParam) {
 				return false
@@ -136,7 +242,7 @@ func C18(c *Ctx) {
 	}
 	givenOK := false
 	if len(K.Common().Args) >= 2 {
-		ds := deepDefs(K.Common().Args[1], closure)
+		ds := dd(K.Common().Args[1], closure)
 		givenOK = len(ds) > 0
 		for _, d := range ds {
 			if d == ssa.Value(bsParam) {
@@ -160,7 +266,7 @@ func C18(c *Ctx) {
 	exeVal := callResults(K)[0]
 	// tracesTo: every leaf definition of v (through helpers) is one of targets
 	tracesTo := func(v ssa.Value, targets ...ssa.Value) bool {
-		leaves := deepDefs(v, closure)
+		leaves := dd(v, closure)
 		if len(leaves) == 0 {
 			return false
 		}
@@ -180,7 +286,7 @@ func C18(c *Ctx) {
 	// exeOrFresh: v is the wrapped call's execution, or on some paths an execution made on the spot in its place
 	// (`if exe == nil { exe = NewExecution(nil) }`)
 	exeOrFresh := func(v ssa.Value, exeVal ssa.Value) bool {
-		leaves := deepDefs(v, closure)
+		leaves := dd(v, closure)
 		hit := false
 		for _, l := range leaves {
 			if l == exeVal {
@@ -241,6 +347,10 @@ func C18(c *Ctx) {
 				return // that is a restore-like write, not the snapshot
 			}
 			snap, M = mu, mu.Map
+			// the map may be kept in a private local cell: then it is what that cell holds at the snapshot
+			if ds := dd(mu.Map, closure); len(ds) == 1 {
+				M = ds[0]
+			}
 		})
 	}
 	if snap == nil {
@@ -354,14 +464,14 @@ func C18(c *Ctx) {
 			}
 			// the map written is the Bs of the wrapped call's execution, or a copy of it that is then made its Bs
 			isExeBs := false
-			for _, d := range deepDefs(mu.Map, closure) {
+			for _, d := range dd(mu.Map, closure) {
 				if base, is := isFieldLoad(d, "core", "Execution", "Bs"); is && exeOrFresh(base, exeVal) {
 					isExeBs = true
 					continue
 				}
 				if cl, isC := d.(*ssa.Call); isC && cl.Common().StaticCallee() != nil && cl.Common().StaticCallee().Name() == "Copy" && len(cl.Common().Args) == 1 {
 					fromBs := false
-					for _, d2 := range deepDefs(cl.Common().Args[0], closure) {
+					for _, d2 := range dd(cl.Common().Args[0], closure) {
 						if base, is := isFieldLoad(d2, "core", "Execution", "Bs"); is && exeOrFresh(base, exeVal) {
 							fromBs = true
 						}
@@ -371,7 +481,7 @@ func C18(c *Ctx) {
 						for _, st := range storesTo(g2, "Execution", "Bs") {
 							_, _, sb, _ := ssau.FieldOf(st.Addr)
 							if exeOrFresh(sb, exeVal) {
-								for _, d3 := range deepDefs(st.Val, closure) {
+								for _, d3 := range dd(st.Val, closure) {
 									if d3 == d {
 										installed = true
 										restoreCopy = st
@@ -402,7 +512,7 @@ func C18(c *Ctx) {
 	rg, okKV := rangeKV(restore.Key, restore.Value)
 	fromSnap := false
 	if okKV {
-		leaves := deepDefs(rg.X, closure)
+		leaves := dd(rg.X, closure)
 		fromSnap = len(leaves) > 0
 		for _, d := range leaves {
 			if d != M && !ssau.IsNilConst(d) {
@@ -419,16 +529,20 @@ func C18(c *Ctx) {
 				okAfter = false
 			}
 		}
-		allowedSkip := func(b *ssa.BasicBlock) (int, bool) {
-			iff, ok := b.Instrs[len(b.Instrs)-1].(*ssa.If)
-			if !ok {
+		// skipOfCond: the branch on cond has an edge that is an allowed way around the write-back; which one
+		var skipOfCond func(cond ssa.Value, depth int) (int, bool)
+		skipOfCond = func(cond ssa.Value, depth int) (int, bool) {
+			if u, isU := cond.(*ssa.UnOp); isU && u.Op == token.NOT && depth < 4 {
+				if i, has := skipOfCond(u.X, depth+1); has {
+					return 1 - i, true
+				}
 				return 0, false
 			}
-			if isFlag(iff.Cond) {
+			if isFlag(cond) {
 				return 1, true
 			}
 			// nothing was saved: `0 < len(saved)` false / `len(saved) == 0` true
-			if bo, ok := iff.Cond.(*ssa.BinOp); ok {
+			if bo, ok := cond.(*ssa.BinOp); ok {
 				isLenM := func(v ssa.Value) bool {
 					cl, ok := v.(*ssa.Call)
 					if !ok {
@@ -438,7 +552,7 @@ func C18(c *Ctx) {
 					if !isB || bi.Name() != "len" {
 						return false
 					}
-					for _, d := range deepDefs(cl.Common().Args[0], closure) {
+					for _, d := range dd(cl.Common().Args[0], closure) {
 						if d != M && !ssau.IsNilConst(d) {
 							return false
 						}
@@ -481,10 +595,10 @@ func C18(c *Ctx) {
 					}
 				}
 			}
-			if bo, ok := iff.Cond.(*ssa.BinOp); ok && ssau.IsNilConst(bo.Y) {
+			if bo, ok := cond.(*ssa.BinOp); ok && ssau.IsNilConst(bo.Y) {
 				isExe := tracesTo(bo.X, exeVal)
 				if !isExe {
-					for _, d := range deepDefs(bo.X, closure) {
+					for _, d := range dd(bo.X, closure) {
 						if base, is := isFieldLoad(d, "core", "Execution", "Bs"); is && tracesTo(base, exeVal) {
 							isExe = true
 						} else {
@@ -503,28 +617,70 @@ func C18(c *Ctx) {
 			return 0, false
 		}
 		// bypass search: from `start` in fn, avoiding `target`, not following allowed skip edges; reaching a return is a bypass
+		// A condition that was computed into a bool first (`skip := !flag || exe == nil || ...; if !skip {`) is a phi
+		// of the block that tests it: the search keeps the edge it came along, and the operand of that edge decides —
+		// a constant takes one way only, anything else is judged like a branch on it.
+		allowedSkip := func(pred, b *ssa.BasicBlock) (int, bool) {
+			iff, ok := b.Instrs[len(b.Instrs)-1].(*ssa.If)
+			if !ok {
+				return 0, false
+			}
+			cond, flip := iff.Cond, false
+			for {
+				u, isU := cond.(*ssa.UnOp)
+				if !isU || u.Op != token.NOT {
+					break
+				}
+				cond, flip = u.X, !flip
+			}
+			if phi, isPhi := cond.(*ssa.Phi); isPhi && phi.Block() == b && pred != nil {
+				for i, p := range b.Preds {
+					if p != pred || i >= len(phi.Edges) {
+						continue
+					}
+					ev := phi.Edges[i]
+					if cst, isC := ev.(*ssa.Const); isC && cst.Value != nil && cst.Value.Kind() == constant.Bool {
+						// decided: the other edge cannot be taken (it is "skipped" for the search)
+						if constant.BoolVal(cst.Value) != flip {
+							return 1, true
+						}
+						return 0, true
+					}
+					if k, has := skipOfCond(ev, 0); has {
+						if flip {
+							k = 1 - k
+						}
+						return k, true
+					}
+					return 0, false
+				}
+			}
+			return skipOfCond(iff.Cond, 0)
+		}
+		type bstate struct{ pred, b *ssa.BasicBlock }
 		bypass := func(fn *ssa.Function, start, target *ssa.BasicBlock) bool {
-			seen := map[*ssa.BasicBlock]bool{}
-			stack := []*ssa.BasicBlock{start}
+			seen := map[bstate]bool{}
+			stack := []bstate{{nil, start}}
 			for len(stack) > 0 {
-				b := stack[len(stack)-1]
+				st := stack[len(stack)-1]
 				stack = stack[:len(stack)-1]
-				if seen[b] || b == target {
+				b := st.b
+				if seen[st] || b == target {
 					continue
 				}
-				seen[b] = true
+				seen[st] = true
 				if len(b.Succs) == 0 {
 					if _, isRet := b.Instrs[len(b.Instrs)-1].(*ssa.Return); isRet {
 						return true
 					}
 					continue
 				}
-				skip, has := allowedSkip(b)
+				skip, has := allowedSkip(st.pred, b)
 				for i, s := range b.Succs {
 					if has && i == skip {
 						continue
 					}
-					stack = append(stack, s)
+					stack = append(stack, bstate{b, s})
 				}
 			}
 			return false
@@ -570,7 +726,7 @@ func C18(c *Ctx) {
 				continue
 			}
 			okCopy = true
-			for _, d := range deepDefs(arg, closure) {
+			for _, d := range dd(arg, closure) {
 				cl, isC := d.(*ssa.Call)
 				if !isC || cl.Common().StaticCallee() == nil || cl.Common().StaticCallee().Name() != "Copy" || len(cl.Common().Args) != 1 || !tracesTo(cl.Common().Args[0], bsParam) {
 					okCopy, whyCopy = false, "the wrapped function receives "+d.String()+": a native action or guard that deletes from (or overwrites in) the map it is given and then fails or rejects has already changed the machine's bindings, permanent ones included"
@@ -735,7 +891,7 @@ func C18(c *Ctx) {
 			}
 		}
 		if fa, ok := st.Addr.(*ssa.FieldAddr); ok {
-			for _, d := range deepDefs(fa.X, closure) {
+			for _, d := range dd(fa.X, closure) {
 				if ex, isEx := d.(*ssa.Extract); isEx && ex.Tuple == ssa.Value(K) {
 					forced = true
 				}
